@@ -3,7 +3,9 @@ package netsim
 import (
 	"bytes"
 	"fmt"
+	"strings"
 
+	"github.com/icon-project/goloop/block"
 	"github.com/icon-project/goloop/common/codec"
 	"github.com/icon-project/goloop/common/crypto"
 	"github.com/icon-project/goloop/module"
@@ -101,6 +103,18 @@ func (o *oracle) checkRoundTrip(n *node, h int64, blk module.Block) {
 			}
 		}
 	}
+	// the chain-less entry point (BlockDataFactory, used by tools and by block import from files) must agree
+	if f, err := block.NewBlockDataFactory(n.inc.chain, nil); err == nil {
+		fd, err := f.NewBlockDataFromReader(bytes.NewReader(wire))
+		if err != nil {
+			bad("factory-decode-failed", "BlockDataFactory does not decode the node's own serialization: %v", err)
+			return
+		}
+		if !bytes.Equal(fd.ID(), blk.ID()) {
+			bad("factory-id", "BlockDataFactory decodes the block to id %x, the block is %x", fd.ID(), blk.ID())
+			return
+		}
+	}
 	// independent binding check: votes bytes hash to the header's votes hash
 	hf, bf, err := readBlock(wire)
 	if err != nil {
@@ -127,4 +141,89 @@ func countTxsData(bd module.BlockData) int {
 		c++
 	}
 	return c
+}
+
+
+// decodeForged feeds a forged block encoding to the decoders of a live correct node directly (wire
+// decoder of the block manager and the chain-less BlockDataFactory), whatever the consensus engine
+// will make of the proposal later: neither may panic, both must agree on accept/reject, and whatever
+// is accepted must be self-consistent (id = hash of the re-serialized header, votes bound to the header).
+func (s *sim) decodeForged(raw []byte, kind string) {
+	var n *node
+	for _, c := range s.nodes {
+		if !c.byz && c.inc != nil && c.inc.alive() && c.inc.bm != nil && c.inc.chain != nil {
+			n = c
+			break
+		}
+	}
+	if n == nil {
+		return
+	}
+	defer func() {
+		if p := recover(); p != nil {
+			s.rc.Violate("decoder-panic", kind, "decoding a forged block encoding (%s, %d bytes) panicked: %v", kind, len(raw), p)
+		}
+	}()
+	s.rc.Metric("forged_encodings_decoded_directly", 1)
+	bd1, err1 := n.inc.bm.NewBlockDataFromReader(bytes.NewReader(raw))
+	var bd2 module.BlockData
+	var err2 error
+	if f, err := block.NewBlockDataFactory(n.inc.chain, nil); err == nil {
+		bd2, err2 = f.NewBlockDataFromReader(bytes.NewReader(raw))
+	}
+	if (err1 == nil) != (err2 == nil) {
+		s.rc.Violate("decoders-disagree", kind, "block manager decoder: %v; BlockDataFactory: %v", err1, err2)
+		return
+	}
+	if err1 != nil {
+		s.rc.Probe("forged_encoding_rejected_by_decoder")
+		return
+	}
+	s.rc.Probe("forged_encoding_decoded")
+	// what the decoder accepted must be the block the INPUT header commits to: same id as the hash of the
+	// input header, and lists / votes that hash to what that header says (a body cannot be swapped or
+	// stripped under a header)
+	inHdr, inBody, inErr := readBlock(raw)
+	for _, bd := range []module.BlockData{bd1, bd2} {
+		if bd == nil {
+			continue
+		}
+		if inErr == nil {
+			same := func(a, b []byte) bool { return bytes.Equal(a, b) || (len(a) == 0 && len(b) == 0) }
+			// the id comparison only where the forgery left the header encoding as a node writes it: the decoder
+			// accepts some non-canonical header field encodings (e.g. other byte forms of the proposer address)
+			// and re-encodes them, which changes the id; C08 says nothing about that
+			canonicalHeader := !strings.HasPrefix(kind, "header-field") && kind != "byteflip" && kind != "truncated" && kind != "random-bytes"
+			switch {
+			case canonicalHeader && !bytes.Equal(bd.ID(), crypto.SHA3Sum256(codec.BC.MustMarshalToBytes(inHdr))):
+				s.rc.Violate("unbound-or-malformed-block-accepted", kind+"/decoder-id", "decoder accepted a forged encoding (%s) as block %x, but the header in the input hashes to another id: the decoded block is not the block the input describes", kind, bd.ID())
+				return
+			case !same(bd.NormalTransactions().Hash(), inHdr.NormalTransactionsHash):
+				s.rc.Violate("unbound-or-malformed-block-accepted", kind+"/decoder-normal-txs", "decoder accepted a block whose %d normal transactions do not hash to the input header's normal transactions hash", len(inBody.NormalTransactions))
+				return
+			case !same(bd.PatchTransactions().Hash(), inHdr.PatchTransactionsHash):
+				s.rc.Violate("unbound-or-malformed-block-accepted", kind+"/decoder-patch-txs", "decoder accepted a block whose patch transactions do not hash to the input header's patch transactions hash")
+				return
+			}
+		}
+		var buf bytes.Buffer
+		if err := bd.MarshalHeader(&buf); err != nil {
+			s.rc.Violate("block-round-trip", "forged/marshal-header", "%v", err)
+			return
+		}
+		hdr := append([]byte(nil), buf.Bytes()...)
+		if err := bd.MarshalBody(&buf); err != nil {
+			s.rc.Violate("block-round-trip", "forged/marshal-body", "%v", err)
+			return
+		}
+		if !bytes.Equal(crypto.SHA3Sum256(hdr), bd.ID()) {
+			s.rc.Violate("block-round-trip", "forged/id-not-header-hash", "decoded forged block (%s): id is not the hash of its serialized header", kind)
+			return
+		}
+		if hf, bf, err := readBlock(buf.Bytes()); err == nil && len(bf.Votes) > 0 && !bytes.Equal(crypto.SHA3Sum256(bf.Votes), hf.VotesHash) {
+			s.rc.Violate("unbound-or-malformed-block-accepted", kind+"/decoder", "decoder accepted a block whose votes do not hash to the header's votes hash")
+			return
+		}
+		_, _ = bd.ToJSON(module.JSONVersion3)
+	}
 }
